@@ -194,11 +194,59 @@ def one(src, xs):
     return rec
 
 
+def use_sites(src, xs):
+    """The two places of piquasso/api/instruction.py where a string becomes an Expression:
+    Instruction.when(str) and a str-valued parameter; and the two places where it is called:
+    _is_condition_met(outcomes) and _resolve_params(outcomes)."""
+    import piquasso as pq
+    from piquasso.api.exceptions import InvalidParameter, PiquassoException
+
+    def cls_of(f):
+        try:
+            return "ok", f()
+        except InvalidExpression:
+            return "InvalidExpression", None
+        except BaseException as ex:  # noqa
+            return type(ex).__name__, None
+
+    rec = {}
+    rec["when"], cond = cls_of(lambda: pq.Phaseshifter(phi=0.25).when(src))
+    rec["param"], par = cls_of(lambda: pq.Phaseshifter(phi=src))
+    rec["evals"] = []
+    if cond is not None and par is not None:
+        for xj in xs:
+            x = dec(xj)
+            if not isinstance(x, tuple):
+                continue
+            r = {"x": xj}
+            try:
+                r["condition"] = {"v": enc(cond._is_condition_met(x))}
+            except PiquassoException as ex:
+                r["condition"] = {"e": type(ex.__cause__).__name__, "wrapped": type(ex).__name__}
+            except BaseException as ex:  # noqa
+                r["condition"] = {"e": type(ex).__name__, "wrapped": None}
+            try:
+                par._resolve_params(x)
+                r["param"] = {"v": enc(par.params["phi"])}
+                par._unresolve_params()
+            except InvalidParameter as ex:
+                r["param"] = {"e": type(ex.__cause__).__name__, "wrapped": "InvalidParameter"}
+            except BaseException as ex:  # noqa
+                r["param"] = {"e": type(ex).__name__, "wrapped": None}
+            rec["evals"].append(r)
+    return rec
+
+
 def main():
     req = json.load(sys.stdin)
-    out = {"tables": tables(), "records": []}
-    for src, xs in req["strings"]:
-        out["records"].append(one(src, xs))
+    out = {"records": []}
+    want_use = set(req.get("use_sites", []))
+    for k, (src, xs) in enumerate(req["strings"]):
+        rec = one(src, xs)
+        if k in want_use and not rec.get("resource_skipped"):
+            rec["use"] = use_sites(src, xs if rec.get("evals") else [])
+        out["records"].append(rec)
+    out["tables"] = tables()  # read after the run: a table mutated while evaluating would show
     print(json.dumps(out))
 
 
